@@ -157,6 +157,10 @@ STEPS = ["i++", "i--", "i += 2", "i = i + 1", "i <<= 1", "i = RsV", "RxV = i", "
 for _st in STEPS:
     SEQUENCED += ["{ for (i = 1; i < 4; %s) { RdV = i; } }" % _st, "{ if (RsV) { for (i = 1; i < 4; %s) RdV = i; } else { RdV = 0; } }" % _st,
                   "{ for (i = 1; i < 8; %s) { for (j = 0; j < 2; j++) { ReV = i; } } RdV = i; }" % _st, "{ for (%s; i < 4; i++) { RdV = i; } }" % _st.replace("i++", "i = 0").replace("i--", "i = 3")]
+# the left operand of && / || is always evaluated: its side effect stays, whatever the right operand is
+for _l in ["i++", "i--", "clz32(RsV)", "(RxV = 1)", "({ RyV = 2; RyV; })", "(i += 2)"]:
+    for _r in ["&& 0", "|| 1", "&& 1", "|| 0", "&& (1 < 0)", "|| RtV"]:
+        SEQUENCED += ["{ RdV = %s %s; }" % (_l, _r), "{ if (%s %s) { RdV = 1; } }" % (_l, _r), "{ RdV = (%s %s) ? RsV : RtV; }" % (_l, _r)]
 
 
 def seq_work(text):
